@@ -54,6 +54,7 @@ type rmsg struct {
 	gap            time.Duration
 	// results
 	startErr error
+	big      bool  // body larger than the client's write buffer
 	atomic   bool  // the caller uses the all-or-nothing Body instead of BodyNonAtomic
 	bodyErr  error // result of the atomic Body
 	rcptErr  map[string]error
@@ -148,6 +149,7 @@ func (w *world) gen() {
 			p.Data = append(p.Data, genO(s.T, num/2))
 			p.Final = append(p.Final, genO(s.T, num))
 			p.Greeting = append(p.Greeting, genO(s.T, num/2))
+			p.DropMidData = append(p.DropMidData, s.T.Bool("plan", num, 24))
 		}
 		for _, r := range append(append([]string{}, rmRcpts...), "erin@xn--e1aybc.example", "frank@xn--e1aybc.example") {
 			for k := 0; k < 6; k++ {
@@ -197,6 +199,7 @@ func (w *world) gen() {
 		m.gap = []time.Duration{0, 0, 30 * time.Second, 200 * time.Second}[s.T.Choose(st, 4)]
 		m.utf8 = true
 		m.atomic = s.T.Choose(st, 4) == 0
+		m.big = s.T.Choose(st, 3) == 0
 		w.msgs = append(w.msgs, m)
 	}
 }
@@ -424,7 +427,7 @@ func (w *world) deliver(i int, m *rmsg) {
 	if m.atomic {
 		// a caller that is not per-recipient aware (e.g. a pipeline fed by the
 		// SMTP endpoint): one result for the whole message
-		m.bodyErr = d.Body(ctx, h, buffer.MemoryBuffer{Slice: []byte("body of " + m.id + "\r\n")})
+		m.bodyErr = d.Body(ctx, h, buffer.MemoryBuffer{Slice: m.body()})
 		m.bodyDone = true
 		if m.bodyErr != nil {
 			s.Logf("driver: %s Body failed: %v", m.id, errSummary(m.bodyErr))
@@ -435,7 +438,7 @@ func (w *world) deliver(i int, m *rmsg) {
 		return
 	}
 	sc := &collector{m: m}
-	d.(module.PartialDelivery).BodyNonAtomic(ctx, sc, h, buffer.MemoryBuffer{Slice: []byte("body of " + m.id + "\r\n")})
+	d.(module.PartialDelivery).BodyNonAtomic(ctx, sc, h, buffer.MemoryBuffer{Slice: m.body()})
 	m.bodyDone = true
 	anyOK := false
 	for _, r := range accepted {
@@ -458,6 +461,14 @@ func (c *collector) SetStatus(rcpt string, err error) {
 	}
 }
 
+func (m *rmsg) body() []byte {
+	b := []byte("body of " + m.id + "\r\n")
+	if m.big {
+		b = append(b, bytes.Repeat([]byte("0123456789abcdef0123456789abcdef0123456789abcdef0123456789abcde\r\n"), 200)...)
+	}
+	return b
+}
+
 func errSummary(err error) string {
 	var se *exterrors.SMTPError
 	if errors.As(err, &se) {
@@ -475,7 +486,8 @@ func Run(s *simrt.Sim, a *harness.Args, r *harness.Result) {
 	s.PreemptNum, s.PreemptDen = 1, 8
 	remote.VerifSetPort("25")
 	w.gen()
-	s.Logf("scenario: %s", w.shape())
+	w.net.SockBuf = []int{0, 0, 4096}[s.T.Choose("scen", 3)]
+	s.Logf("scenario: %s sockbuf=%d", w.shape(), w.net.SockBuf)
 	var berr error
 	built := false
 	s.Spawn("boot", nil, func() {
